@@ -86,3 +86,30 @@ func init() {
 		return c.runSeq(rs)
 	}
 }
+
+func init() {
+	devCmds["conc1"] = func(c *CheckCtx) error {
+		d, err := buildGatedDriver(c.Sc, "gated", false)
+		if err != nil {
+			return err
+		}
+		calls := []concCall{{G: "A", Test: "TestA", Kind: "match", Value: "value of A"}}
+		runs, err := runScenarios(c.Sc, d, []*Scenario{concScenario("x1", calls, []int{0}, false, nil)}, 1)
+		if err != nil {
+			return err
+		}
+		for _, e := range runs[0].Raw[0] {
+			b, _ := json.Marshal(e)
+			s := string(b)
+			if len(s) > 600 {
+				s = s[:600]
+			}
+			fmt.Println(s)
+		}
+		return nil
+	}
+}
+
+func init() {
+	devCmds["race"] = func(c *CheckCtx) error { c.Prop = "C06"; return c.raceRun() }
+}
